@@ -1414,10 +1414,15 @@ pub fn run_backpressure(ctx: &Ctx) -> i32 {
     install_quiet_panic_hook();
     let mut ev = Evidence::new(ctx, "exploration", RULE_BP);
     ev.assumptions = vec!["loopback socket buffers are finite (default sysctl), so 16..32 MiB of queued responses exert back-pressure".into()];
-    let cases: Vec<(usize, usize)> = if ctx.thorough() { vec![(100, 20000), (64 << 10, 256), (1 << 20, 32), (4 << 20, 8), (8 << 20, 4), (333_333, 64)] } else { vec![(100, 5000), (64 << 10, 256), (1 << 20, 24), (4 << 20, 6)] };
-    for (ci, (size, n)) in cases.iter().enumerate() {
+    // (value size, number of gets, how long the client does not read, the server's timeout in seconds)
+    let cases: Vec<(usize, usize, u64, u32)> = if ctx.thorough() {
+        vec![(100, 20000, 300, 30), (64 << 10, 256, 300, 30), (1 << 20, 32, 300, 30), (4 << 20, 8, 300, 30), (8 << 20, 4, 300, 30), (333_333, 64, 300, 30), (16_385, 400, 300, 30), (1 << 20, 48, 2600, 1), (1 << 20, 48, 4200, 2)]
+    } else {
+        vec![(100, 5000, 300, 30), (64 << 10, 256, 300, 30), (1 << 20, 24, 300, 30), (4 << 20, 6, 300, 30), (16_385, 200, 300, 30), (1 << 20, 48, 2600, 1)]
+    };
+    for (ci, (size, n, stall_ms, idle_s)) in cases.iter().enumerate() {
         for flavour in [None, Some(2usize)] {
-            let srv = match Server::start(SrvCfg { item_limit: 16 << 20, workers: flavour, ..Default::default() }) {
+            let srv = match Server::start(SrvCfg { item_limit: 16 << 20, workers: flavour, idle_s: *idle_s, ..Default::default() }) {
                 Ok(s) => s,
                 Err(e) => {
                     ev.inconclusive.push(format!("server start: {}", e));
@@ -1442,7 +1447,10 @@ pub fn run_backpressure(ctx: &Ctx) -> i32 {
             }
             use std::io::Write;
             let _ = c.s.write_all(&reqs);
-            std::thread::sleep(Duration::from_millis(300));
+            // (a stall longer than the server's timeout: whatever the server does about a client that does
+            // not read - wait, or hang up - what arrives must be whole responses in order, at most cut off
+            // once, at the end)
+            std::thread::sleep(Duration::from_millis(*stall_ms));
             // now read everything
             let want = *n;
             let t0 = Instant::now();
@@ -1461,19 +1469,41 @@ pub fn run_backpressure(ctx: &Ctx) -> i32 {
                     break;
                 }
             }
-            let describe = json!({"engine":"backpressure","value_size":size,"gets":n,"runtime":format!("{:?}",flavour),"received_bytes":c.rx.len(),"end":format!("{:?}",c.end)});
-            ev.nontrivial.insert(fnv(format!("{}:{}:{:?}", size, n, flavour).as_bytes()));
+            let describe = json!({"engine":"backpressure","value_size":size,"gets":n,"client_stall_ms":stall_ms,"server_timeout_s":idle_s,"runtime":format!("{:?}",flavour),"received_bytes":c.rx.len(),"end":format!("{:?}",c.end)});
+            ev.nontrivial.insert(fnv(format!("{}:{}:{}:{:?}", size, n, stall_ms, flavour).as_bytes()));
             ev.count("response_bytes_received", c.rx.len() as u64);
             let mut bad: Option<Viol> = None;
+            // a server may hang up on a client that does not read for longer than its timeout: then the stream
+            // may end inside a response, but only there
+            let dropped_slow_reader = *stall_ms > (*idle_s as u64) * 1000 && c.end != End::Open;
+            let complete = parse_prefix(&c.rx);
+            let complete_len: usize = {
+                let mut off = 0usize;
+                while let Ok(Some((_, n))) = wire::parse_one(&c.rx[off..]) {
+                    off += n;
+                }
+                off
+            };
+            let tail_is_torn_response = {
+                let tail = &c.rx[complete_len..];
+                let expect_getk = complete.len() % 2 == 1;
+                tail.is_empty() || (tail[0] == 0x81 && (tail.len() < 2 || tail[1] == if expect_getk { op::GETK } else { op::GET }))
+            };
             match wire::parse_all(&c.rx) {
-                Err(e) => bad = Some(Viol::new(&["C11", "C12", "C01"], "resp-grammar-under-backpressure", format!("{} gets of a {}-byte value: {}", n, size, e))),
+                Err(_) if dropped_slow_reader && tail_is_torn_response && complete.iter().enumerate().all(|(i, r)| r.status == st::OK && r.value == value && r.opaque == 100 + i as u32) => {
+                    ev.count("slow_reader_dropped_at_a_response_boundary_or_inside_one", 1);
+                }
+                Err(e) => bad = Some(Viol::new(&["C11", "C12", "C01"], "resp-grammar-under-backpressure", format!("{} gets of a {}-byte value, client not reading for {} ms (server timeout {} s): {}", n, size, stall_ms, idle_s, e))),
                 Ok(rs) => {
                     ev.count("responses_parsed", rs.len() as u64);
-                    if rs.len() != want {
+                    if rs.len() != want && dropped_slow_reader && rs.iter().enumerate().all(|(i, r)| r.status == st::OK && r.value == value && r.opaque == 100 + i as u32) {
+                        ev.count("slow_reader_dropped_at_a_response_boundary_or_inside_one", 1);
+                    } else if rs.len() != want {
                         bad = Some(Viol::new(&["C11", "C12", "C01"], "responses-missing-under-backpressure", format!("{} of {} responses arrived (connection {:?})", rs.len(), want, c.end)));
                     } else {
                         for (i, r) in rs.iter().enumerate() {
-                            if r.status != st::OK || r.value != value || r.opaque != 100 + i as u32 || r.flags() != Some(0xf1a6) {
+                            let key_ok = if i % 2 == 0 { r.key.is_empty() } else { r.key == b"big" };
+                            if r.status != st::OK || r.value != value || r.opaque != 100 + i as u32 || r.flags() != Some(0xf1a6) || !key_ok {
                                 bad = Some(Viol::new(&["C11", "C01"], "response-corrupt-under-backpressure", format!("response #{}: {}", i, r.brief())));
                                 break;
                             }
